@@ -131,10 +131,10 @@ def _mul(a, at):
 
 
 def _div(a, at):
+    if a[1].dtype == np.int64 and (a[1] == 0).any():
+        raise Undefined("integer division by zero")
     x, y = _bc(*a)
     if x.dtype == np.int64:
-        if (y == 0).any():
-            raise Undefined("integer division by zero")
         if ((x == np.iinfo(np.int64).min) & (y == -1)).any():
             raise Undefined("integer overflow")
         q = np.abs(x) // np.abs(y)  # truncating division (Div doc, opset 14)
@@ -144,18 +144,18 @@ def _div(a, at):
 
 
 def _mod(a, at):
+    if a[1].dtype == np.int64 and (a[1] == 0).any():
+        raise Undefined("integer modulo by zero")
     x, y = _bc(*a)
     fmod = at.get("fmod", 0)
     if x.dtype == np.int64:
         if fmod:
             raise Undefined("fmod=1 on integers not used here")
-        if (y == 0).any():
-            raise Undefined("integer modulo by zero")
         return [np.mod(x, y).astype(np.int64)]  # sign of the divisor (python %)
     if not fmod:
         raise Undefined("Mod on floating point requires fmod=1")
-    if _has_nan(x, y) or np.isinf(x).any() or (y == 0).any() or (x == 0).any():
-        # doc: -0 / +-0 results may vary; inf, nan, zero divisor: special cases -> keep clear of them
+    if _has_nan(x, y) or np.isinf(a[0]).any() or (a[1] == 0).any() or ((a[0] == 0) & np.signbit(a[0])).any():
+        # doc: for x = -0 either zero may be returned; inf / nan / zero divisor are "special cases": keep clear
         raise Undefined("fmod special case")
     with np.errstate(all="ignore"):
         return [np.fmod(x, y).astype(np.float32)]
@@ -240,6 +240,8 @@ def _reducesum(a, at):
     else:
         if axes.ndim != 1:
             raise Undefined("axes must be 1-D")
+        if x.size == 0:
+            raise Undefined("reduction along given axes of an empty tensor (runtimes differ)")
         ax = []
         for v in axes.tolist():
             if not -x.ndim <= v < x.ndim:
@@ -326,10 +328,9 @@ def _split(a, at):
         lo = min(j * chunk, d)
         hi = min((j + 1) * chunk, d)
         outs.append(np.take(x, np.arange(lo, hi), axis=ax).astype(x.dtype))
-    if d % n != 0 or d == 0:
-        # uneven / empty split: the doc sentence is short and runtimes differ on empty trailing chunks
-        if d < n:
-            raise Undefined("fewer elements than outputs")
+    if any(o.shape[ax] == 0 for o in outs):
+        # the doc only says "the last chunk will be smaller"; an empty chunk is not covered (runtimes reject it)
+        raise Undefined("split with an empty chunk")
     return outs
 
 
@@ -683,9 +684,11 @@ class Interp:
                 attrs[k] = self.attr_arg(a)
             else:
                 raise Undefined(f"no parameter {k}")
+        for nm, kind in h["params"]:
+            if nm in inputs and dt_of(inputs[nm]) != KIND_DT[kind]:
+                raise Undefined("argument type differs from the parameter's annotation")
         sub = Interp(h, helpers=list(self.helpers.values()))
-        sub_steps = sub.run(inputs, attrs)
-        return sub_steps
+        return sub.run(inputs, attrs)
 
     def attr_arg(self, a):
         # attribute argument of a script-function call: a python constant or one of our attribute parameters
@@ -879,6 +882,14 @@ class Typer:
         h = self.helpers.get(e[1])
         if h is None:
             raise Undefined("fn")
+        pk = {n: KIND_DT[k] for n, k in h["params"]}
+        order = [n for n, _ in h["params"]]
+        given = [(order[j], a) for j, a in enumerate(e[2]) if j < len(order)] + [(k, a) for k, a in e[3] if k in pk]
+        for nm, a in given:
+            d = self.expr(a, env)
+            d = d[1] if isinstance(d, tuple) else d
+            if d != pk[nm]:
+                raise Undefined("argument type differs from the parameter's annotation")
         return [KIND_DT[k] for k in h["rkinds"]]
 
     def block(self, stmts, env):
@@ -1090,7 +1101,8 @@ def render_function(prog, ranks=None, out_ranks=None, lines=None, marks=None):
     lines.append("@script(default_opset=op)")
     lines.append(f"def {prog['name']}({', '.join(ps)}){ann}:")
     marks["def:" + prog["name"]] = len(lines)
-    r_block(prog["body"], 1, lines, marks)
+    if prog["body"] or prog["ret"] is None:
+        r_block(prog["body"], 1, lines, marks)
     if prog["ret"] is not None:
         marks["return"] = len(lines) + 1
         lines.append("    return " + ", ".join(r_expr(e) for e in prog["ret"]))
@@ -1116,3 +1128,46 @@ def body_text(prog):
         render_function(h, lines=lines, marks={})
     render_function(prog, lines=lines, marks={})
     return "\n".join(l for l in lines if not l.startswith("@script"))
+
+
+def c_block(stmts):
+    out = []
+    for s in stmts:
+        t = s[0]
+        if t == "assign":
+            out.append(f"{s[1]}={r_expr(s[2])}".replace(" ", ""))
+        elif t == "massign":
+            out.append(f"{','.join(s[1])}={r_expr(s[2])}".replace(" ", ""))
+        elif t == "passign":
+            out.append(f"{','.join(s[1])}={','.join(r_expr(x) for x in s[2])}".replace(" ", ""))
+        elif t == "if":
+            e = f"else{{{c_block(s[3])}}}" if s[3] else ""
+            out.append(f"if {r_expr(s[1])}{{{c_block(s[2])}}}{e}")
+        elif t == "for":
+            b = c_block(s[3]) + (f";if {s[4]}:break" if s[4] else "")
+            out.append(f"for {s[1]} in range({r_expr(s[2])}){{{b}}}")
+        elif t == "while":
+            b = c_block(s[2]) + (f";if {s[3]}:break" if s[3] else "")
+            out.append(f"while {s[1]}{{{b}}}")
+        elif t == "raw":
+            out.append("raw:" + "\\n".join(s[1]))
+        elif t == "return":
+            out.append("return " + ",".join(r_expr(x) for x in s[1]))
+        elif t == "def":
+            out.append(f"def {s[1]}({','.join(s[2])}){{{c_block(s[3])};return {','.join(r_expr(x) for x in s[4])}}}")
+        else:
+            out.append(str(s))
+    return ";".join(out)
+
+
+def compact(prog):
+    """One-line canonical rendering (program identity / finding keys)."""
+    parts = []
+    for h in prog.get("helpers", []):
+        parts.append(compact(h))
+    sig = ",".join([f"{n}:{k}" for n, k in prog["params"]] +
+                   [f"{n}:{t}" + ("" if d is None else f"={d!r}") for n, t, d in prog["attrs"]])
+    body = c_block(prog["body"])
+    ret = "" if prog["ret"] is None else "return " + ",".join(r_expr(e) for e in prog["ret"]).replace(" ", "")
+    parts.append(f"{prog['name']}({sig}){{{body + ';' if body else ''}{ret}}}")
+    return " ".join(parts)
